@@ -147,7 +147,12 @@ def main():
         print("baseline failures on an unchanged scratch copy:", sorted(baseline_fails()))
 
     with ThreadPoolExecutor(jobs) as ex:
-        it = ex.map(lambda n: one(n, rebase, with_suite), names)
+        def one_and_tell(n):
+            r = one(n, rebase, with_suite)
+            print(f"  .. {n}: detected={r.get('detected')} by_seed={r.get('detected_by_seed')} demo=({r.get('demo_with_change')},{r.get('demo_unchanged')}) new_suite_failures={r.get('suite_new_failures')}", flush=True)
+            return r
+
+        it = ex.map(one_and_tell, names)
         results_iter = list(zip(names, it))
     for n, r in results_iter:
         results.append(r)
